@@ -130,12 +130,57 @@ def sensitivity(argv):
     return 0 if not missed else 1
 
 
+def seeds(argv):
+    """regression over the independently produced property-breaking changes in /verif/seeded: each patch is applied to a
+    scratch worktree of /repo's HEAD (never to /repo itself), built into target/seeds, and the quick check of its property
+    must exit 1 with a VIOLATION line. Optional arguments: seed ids to run (default: all)."""
+    root = os.path.join(core.scratch_root(), "seeds-%d" % os.getpid())
+    sdir = os.path.join(build.VERIF, "seeded")
+    ids = argv or sorted(os.listdir(sdir))
+    res = []
+    for sid in ids:
+        meta = json.load(open(os.path.join(sdir, sid, "meta.json")))
+        prop = meta["property"]
+        copy = os.path.join(root, sid)
+        shutil.rmtree(copy, ignore_errors=True)
+        os.makedirs(root, exist_ok=True)
+        subprocess.run(["git", "-C", build.REPO, "worktree", "add", "--detach", "-q", copy, "HEAD"], check=True)
+        a = subprocess.run(["git", "-C", copy, "apply", os.path.join(sdir, sid, "patch.diff")], stdout=subprocess.PIPE, stderr=subprocess.STDOUT, text=True)
+        if a.returncode != 0:
+            out = "PATCH-DOES-NOT-APPLY: " + a.stdout[-200:]
+        else:
+            env = dict(os.environ)
+            env["S4SIM_REPO"] = copy
+            env["S4SIM_TARGET"] = os.path.join(build.VERIF, "target", "seeds")
+            env["S4SIM_NO_EVIDENCE"] = "1"
+            t0 = time.time()
+            r = subprocess.run([sys.executable, "-B", os.path.join(build.VERIF, "sim", "main.py"), prop, "quick"], env=env,
+                               stdout=subprocess.PIPE, stderr=subprocess.STDOUT, text=True)
+            caught = r.returncode == 1 and "VIOLATION property=%s" % prop in r.stdout
+            tail = [ln for ln in r.stdout.split("\n") if ln.startswith(prop + " quick")]
+            out = ("caught" if caught else "MISSED (exit %d)" % r.returncode) + " | " + (tail[-1] if tail else r.stdout[-200:]) + " | %.0fs" % (time.time() - t0)
+        res.append((sid, prop, out))
+        subprocess.run(["git", "-C", build.REPO, "worktree", "remove", "--force", copy], check=False)
+        shutil.rmtree(copy, ignore_errors=True)
+        print("%-5s %s" % (sid, out[:200]), flush=True)
+    shutil.rmtree(root, ignore_errors=True)
+    missed = [r for r in res if not r[2].startswith("caught")]
+    print("seeds: %d changes, %d caught, %d not" % (len(res), len(res) - len(missed), len(missed)))
+    if not argv:
+        os.makedirs(os.path.join(build.VERIF, "selftest_results"), exist_ok=True)
+        with open(os.path.join(build.VERIF, "selftest_results", "seeds.json"), "w") as fh:
+            json.dump([{"seed": a_, "property": b_, "result": c_[:200]} for (a_, b_, c_) in res], fh, indent=1)
+    return 0 if not missed else 1
+
+
 def main(argv):
     if not argv:
         print(__doc__)
         return 2
     if argv[0] == "determinism":
         return determinism(argv[1:])
+    if argv[0] == "seeds":
+        return seeds(argv[1:])
     if argv[0] == "sensitivity":
         return sensitivity(argv[1:])
     print(__doc__)
